@@ -252,7 +252,11 @@ def run(ctx):
     w = [n for n in deco.body if isinstance(n, ast.FunctionDef)]
     fname = deco.args.args[0].arg
     okd = len(w) == 1 and len([c for c in ast.walk(w[0]) if isinstance(c, ast.Call) and isinstance(c.func, ast.Name) and c.func.id == fname]) == 1 \
-        and any(isinstance(s, ast.Return) and isinstance(s.value, ast.Call) and isinstance(s.value.func, ast.Name) and s.value.func.id == fname for s in ast.walk(w[0]))
+        and (any(isinstance(s, ast.Return) and isinstance(s.value, ast.Call) and isinstance(s.value.func, ast.Name) and s.value.func.id == fname for s in ast.walk(w[0]))
+             or any(isinstance(s, ast.Return) and isinstance(s.value, ast.Name) and any(
+                 isinstance(a_, ast.Assign) and isinstance(a_.targets[0], ast.Name) and a_.targets[0].id == s.value.id and isinstance(a_.value, ast.Call) and isinstance(a_.value.func, ast.Name)
+                 and a_.value.func.id == fname for a_ in ast.walk(w[0])) and sum(1 for a_ in ast.walk(w[0]) if isinstance(a_, ast.Assign) and isinstance(a_.targets[0], ast.Name) and a_.targets[0].id == s.value.id) == 1
+                 for s in ast.walk(w[0])))
     ctx.check(okd, 'C19.R1', 'is_connected|returns-wrapped-result', '%s:%s is_connected' % (PIE, deco.lineno), 'wrapper returns function(self, ...) once',
               'the is_connected wrapper does not return the wrapped function\'s result')
 
@@ -409,7 +413,8 @@ def run(ctx):
         s = pn.stmt
         if not isinstance(s, ast.Return):
             raise AnalysisError('unrecognised construct: _build_protocol_version falls off')
-        v = fold_version(s.value)
+        from ..dataflow import resolve as _resolve
+        v = fold_version(_resolve(ReachingDefs(bg), pn, s.value)[0])
         eqs = []
         for t, l2 in dominating_edges(bg, pn):
             p = cmp_parts(t.stmt)
